@@ -406,7 +406,7 @@ SPECS["C10"] = {
     "groups": [dict(PARSER, entries=[
         {"name": "VerifC10_TypeNames", "quick": {"params": [0, 4, 15, 16, 18], "procs": 5}, "thorough": {"params": list(range(22)), "procs": 11}},
         {"name": "VerifC10_Struct", "quick": {"params": [0, 4], "procs": 2}, "thorough": {"params": list(range(18)), "procs": 9}},
-        {"name": "VerifC10_Enum", "quick": {"params": [0, 1], "procs": 2}, "thorough": {"params": [0, 1, 2], "procs": 3}},
+        {"name": "VerifC10_Enum", "quick": {"params": [0, 1], "procs": 2}, "thorough": {"params": [0, 1, 2], "procs": 3}, "expect_reach": ["end", "int-leading-zero", "int-plus-sign"]},
         {"name": "VerifC10_Service", "quick": {"params": [0], "procs": 1}, "thorough": {"params": [0, 1, 2, 3, 4, 5], "procs": 6}},
         {"name": "VerifC10_Scope", "quick": {"params": [0, 3, 4, 5], "procs": 4}, "thorough": {"params": [0, 1, 2, 3, 4, 5], "procs": 6}},
         {"name": "VerifC10_Endings", "quick": {"params": [0, 1, 2], "procs": 3}, "thorough": {"params": [0, 1, 2], "procs": 3}},
